@@ -32,8 +32,10 @@ import (
 const (
 	// sigHdrSize is the size of SIG header in bytes.
 	sigHdrSize = 16
-	// reassemblyListCap is the maximum capacity of a reassembly list.
-	reassemblyListCap = 100
+	// reassemblyListCap is the maximum capacity of a reassembly list. It must be large enough to
+	// hold all the frames of the largest packet (9000 bytes) at the smallest frame size the sender
+	// accepts (41 payload bytes per frame, i.e. 220 frames).
+	reassemblyListCap = 256
 	// rlistCleanUpInterval is the interval between clean up of outdated reassembly lists.
 	rlistCleanUpInterval = 1 * time.Second
 )
